@@ -282,6 +282,9 @@ pub struct VolumeCase {
 fn volume_cases(_t: Tier) -> Vec<VolumeCase> {
     vec![
         VolumeCase { family: 0, codec: 0, audio: 1, times: 136, mib: 32 },
+        VolumeCase { family: 0, codec: 1, audio: 1, times: 127, mib: 32 },
+        VolumeCase { family: 1, codec: 0, audio: 0, times: 127, mib: 32 },
+        VolumeCase { family: 2, codec: 1, audio: 0, times: 127, mib: 32 },
         VolumeCase { family: 0, codec: 2, audio: 7, times: 136, mib: 32 },
         VolumeCase { family: 1, codec: 1, audio: 0, times: 136, mib: 32 },
         VolumeCase { family: 2, codec: 0, audio: 0, times: 136, mib: 32 },
@@ -316,6 +319,17 @@ fn eval_volume(c: &VolumeCase) -> Outcome {
                                 let r = m.write_video(5, 5, &huge, false);
                                 if r.is_ok() {
                                     log.push("a write with a decreasing DTS was accepted".into());
+                                }
+                            }
+                            // ... and a tail of ever shorter ones (half, quarter, ... one byte; twice) so that a byte counter
+                            // that refuses to go past a limit is driven right up to it
+                            for _ in 0..2 {
+                                let mut len = huge.len() / 2;
+                                while len > 0 {
+                                    if m.write_video(5, 5, &huge[..len], false).is_ok() {
+                                        log.push("a write with a decreasing DTS was accepted".into());
+                                    }
+                                    len /= 2;
                                 }
                             }
                         }
@@ -355,6 +369,16 @@ fn eval_volume(c: &VolumeCase) -> Outcome {
                         let r = if c.family == 0 { m.write_audio(0.05, &huge) } else { m.write_video(2.0 / 30.0, &huge, false) };
                         if r.is_ok() {
                             log.push("a call that must be rejected was accepted".into());
+                        }
+                    }
+                    for _ in 0..2 {
+                        let mut len = huge.len() / 2;
+                        while len > 1 {
+                            let r = if c.family == 0 { m.write_audio(0.05, &huge[..len]) } else { m.write_video(2.0 / 30.0, &huge[..len], false) };
+                            if r.is_ok() {
+                                log.push("a call that must be rejected was accepted".into());
+                            }
+                            len /= 2;
                         }
                     }
                 }
